@@ -50,13 +50,19 @@ def _case(draw):
             cfg["cMinimumVelocity"] = spec["mv"] * draw(st.floats(0.6, 0.98))
         cfg["max_calc_step_size_feet"] = draw(st.sampled_from([0.5, 0.5, 1.0, 2.0]))
         step = R / draw(st.floats(1.0, 30.0))
+        if draw(st.integers(0, 5)) == 0:
+            # record step below the integration step: several record distances fall inside the step in which an event is
+            # detected - the event is still one event (short ranges keep the row count in the thousands)
+            R = min(R, draw(st.floats(60.0, 400.0)))
+            step = cfg["max_calc_step_size_feet"] / 2.0 * draw(st.floats(0.12, 0.95))
+            cls = cls + "+record-step-below-integration-step"
     case = {"cls": cls, "shot": spec, "R": R, "step": step, "ts": draw(st.sampled_from([0.0, 0.0, 0.02, 0.2])), "config": cfg,
             "prior": draw(gen.prior())}
-    if cls == "transonic" and draw(st.integers(0, 3)) == 0:
+    if cls.startswith("transonic") and draw(st.integers(0, 3)) == 0:
         # launch a hair above the local speed of sound, so that the sonic crossing happens inside the first integration steps
         # (the muzzle speed is set by the check to (1 + excess) x the station's speed of sound: input placement, not an oracle)
         case["launch_mach_excess"] = draw(st.sampled_from([1e-6, 1e-5, 3e-5, 1e-4, 3e-4, 1e-3]))
-    if cls == "range-at-event":
+    if cls == "range-at-event":   # (not combined with the small record step: the range is re-placed by the check)
         # the requested range is placed inside the step in which one of the shot's events happens (decided by the check from
         # a preliminary trace of the same shot: a deterministic function of the case)
         case["event_pick"] = draw(st.integers(0, 5))
@@ -105,7 +111,7 @@ def check(case):
     # end is detected at the first point beyond it, which the solver still visits (loop bound range + min_step)
     h_cfg = cfg.get("max_calc_step_size_feet", 0.5)
     R_req = case["R"]
-    if case["cls"] == "range-at-event":
+    if case["cls"].startswith("range-at-event") and "event_pick" in case:
         pre, perr = build.trace(build.calculator(cfg), build.shot(spec), case["R"], extra=True)
         pre = pre[:len(pre) - (1 if perr is not None else 0)]
         pre_ev = _model(pre, look, y0)
